@@ -423,8 +423,12 @@ func DecodeUD(m *Member) {
 	m.UD = &UD{Parts: tps(parts), HasGen: hasGen, Gen: gen}
 }
 
-// RunSticky runs the real sticky Plan on the input and reconstructs the order oracle from the call-site reports.
-func RunSticky(in Input) StickyRun {
+// RunSticky runs the real sticky Plan (on a fresh strategy value) on the input and reconstructs the order oracle from the
+// call-site reports.
+func RunSticky(in Input) StickyRun { return RunStickyOn(nil, in) }
+
+// RunStickyOn is RunSticky on a given strategy value, reused across the rebalances of a chain as real groups do.
+func RunStickyOn(inst *sarama.VerifSticky, in Input) StickyRun {
 	for i := range in.Members {
 		DecodeUD(&in.Members[i])
 	}
@@ -438,7 +442,7 @@ func RunSticky(in Input) StickyRun {
 	done := make(chan res, 1)
 	mm, tm := in.MemberMap(), in.TopicMap()
 	go func() {
-		p, e, pn := sarama.VerifStickyPlanInto(tr, mm, tm)
+		p, e, pn := sarama.VerifStickyPlanOn(inst, tr, mm, tm)
 		done <- res{p, e, pn}
 	}()
 	var plan sarama.BalanceStrategyPlan
@@ -1053,4 +1057,47 @@ func NearBalanced(r *rand.Rand, maxM, maxT, maxP, k int) (Input, bool) {
 		in.Members[i].Data = b
 	}
 	return in, true
+}
+
+// Spice makes subscriptions irregular: a topic named twice in a member's list, and/or a subscription to a topic the
+// topic map does not have.
+func Spice(r *rand.Rand, in *Input, ghost bool) {
+	if len(in.Members) == 0 {
+		return
+	}
+	if r.Intn(2) == 0 {
+		k := r.Intn(len(in.Members))
+		if n := len(in.Members[k].Topics); n > 0 {
+			in.Members[k].Topics = append(in.Members[k].Topics, in.Members[k].Topics[r.Intn(n)])
+		}
+	}
+	if ghost && r.Intn(2) == 0 {
+		k := r.Intn(len(in.Members))
+		in.Members[k].Topics = append(in.Members[k].Topics, "ghost")
+		r.Shuffle(len(in.Members[k].Topics), func(a, b int) { in.Members[k].Topics[a], in.Members[k].Topics[b] = in.Members[k].Topics[b], in.Members[k].Topics[a] })
+	}
+}
+
+// IrregularSmall enumerates tiny groups over two topics whose members' lists are as long as the topic map without necessarily
+// covering it: a topic twice, or a topic the map lacks.
+func IrregularSmall() []Input {
+	lists := [][]string{{"t0", "t0"}, {"t0", "t1"}, {"t1", "t1"}, {"t0", "ghost"}, {"t1", "t0"}, {"ghost", "t1"}, {"t0"}, {"t1", "t0", "t1"}}
+	var out []Input
+	for nm := 1; nm <= 3; nm++ {
+		total := 1
+		for i := 0; i < nm; i++ {
+			total *= len(lists)
+		}
+		for code := 0; code < total; code++ {
+			c := code
+			in := Input{Topics: []Topic{{"t0", Seq(1 + code%3)}, {"t1", Seq(1 + (code/3)%3)}}}
+			for i := 0; i < nm; i++ {
+				in.Members = append(in.Members, Member{ID: fmt.Sprintf("m%d", i), Topics: append([]string(nil), lists[c%len(lists)]...)})
+				c /= len(lists)
+			}
+			in.Normalize()
+			out = append(out, in)
+		}
+	}
+	return out
 }
